@@ -4,6 +4,7 @@ import (
 	"encoding/json"
 	"fmt"
 	"os"
+	"os/exec"
 	"path/filepath"
 	"regexp"
 	"sort"
@@ -18,7 +19,8 @@ import (
 type C08Scenario struct {
 	Files     []SrcFile      `json:"files"` // materialised under src/
 	GitLog    string         `json:"git_log"`
-	GitLog2   string         `json:"git_log2"` // a second history, parsed in between two parses of the first
+	GitLog2   string         `json:"git_log2"`
+	GitRepo   *gen.GitRepo   `json:"git_repo,omitempty"` // a real repository for the `coca git` command line // a second history, parsed in between two parses of the first
 	GoFile    string         `json:"go_file"`
 	Tree      []gen.TreeFile `json:"tree"`
 	Root      string         `json:"root"`
@@ -131,6 +133,9 @@ func (C08) Generate(t *tape.Tape, tier string) interface{} {
 	}
 	sc.GitLog = gen.GenGitLog(t)
 	sc.GitLog2 = gen.GenGitLog(t)
+	if t.Bool(1, 2) {
+		sc.GitRepo = gen.GenGitRepo(t)
+	}
 	sc.Tree = gen.GenClocTree(t)
 	sc.GoFile = gen.GenGoFile(t)
 	k := 4
@@ -435,6 +440,103 @@ func canonGoContainer(raw []byte) (string, error) {
 	return string(rest) + "\nDataStructures by name: " + strings.Join(keys, ",") + "\n" + canonKeyed(keys, rows), nil
 }
 
+// canonTableKeyed: rows of a tablewriter table whose promised order is by column keyCol (ties free).
+func canonTableKeyed(text string, keyCol int) string {
+	var keys, rows []string
+	first := true
+	for _, l := range strings.Split(text, "\n") {
+		if !strings.HasPrefix(l, "|") {
+			continue
+		}
+		if first {
+			first = false // header
+			continue
+		}
+		cells := strings.Split(strings.Trim(l, "|"), "|")
+		k := ""
+		if keyCol < len(cells) {
+			k = strings.TrimSpace(cells[keyCol])
+		}
+		keys = append(keys, k)
+		rows = append(rows, strings.Join(strings.Fields(l), " "))
+	}
+	return strings.Join(keys, ",") + "\n" + canonKeyed(keys, rows)
+}
+
+func canonCommitsJSON(text string) string {
+	var cs []struct {
+		Rev, Author, Date, Message string
+		Changes                    []map[string]interface{}
+	}
+	if json.Unmarshal([]byte(text), &cs) != nil {
+		return "raw:" + text
+	}
+	var out []string
+	for _, c := range cs {
+		var ch []string
+		for _, x := range c.Changes {
+			b, _ := json.Marshal(x)
+			ch = append(ch, string(b))
+		}
+		sort.Strings(ch)
+		out = append(out, fmt.Sprintf("%s|%s|%s|%s|%s", c.Rev, c.Author, c.Date, c.Message, strings.Join(ch, ",")))
+	}
+	return strings.Join(out, "\n")
+}
+
+// buildGitRepo creates a real repository with the git binary, deterministically (fixed dates, names, content).
+func buildGitRepo(dir string, r *gen.GitRepo) error {
+	if err := os.MkdirAll(dir, 0755); err != nil {
+		return err
+	}
+	git := func(env []string, args ...string) error {
+		cmd := exec.Command("git", args...)
+		cmd.Dir = dir
+		cmd.Env = append(os.Environ(), "GIT_CONFIG_NOSYSTEM=1", "HOME="+dir, "GIT_TERMINAL_PROMPT=0")
+		cmd.Env = append(cmd.Env, env...)
+		if b, err := cmd.CombinedOutput(); err != nil {
+			return fmt.Errorf("git %v: %v: %s", args, err, b)
+		}
+		return nil
+	}
+	if err := git(nil, "init", "-q", "."); err != nil {
+		return err
+	}
+	git(nil, "config", "core.ignorecase", "false")
+	git(nil, "config", "commit.gpgsign", "false")
+	for _, c := range r.Commits {
+		for _, op := range c.Ops {
+			p := filepath.Join(dir, filepath.FromSlash(op.Path))
+			switch op.Kind {
+			case "write":
+				os.MkdirAll(filepath.Dir(p), 0755)
+				var b strings.Builder
+				for i := 0; i < op.Size; i++ {
+					fmt.Fprintf(&b, "line %d of %s\n", i, op.Path)
+				}
+				os.WriteFile(p, []byte(b.String()), 0644)
+			case "delete":
+				os.Remove(p)
+			case "rename":
+				to := filepath.Join(dir, filepath.FromSlash(op.To))
+				os.MkdirAll(filepath.Dir(to), 0755)
+				os.Rename(p, to)
+			}
+		}
+		if err := git(nil, "add", "-A"); err != nil {
+			return err
+		}
+		email := strings.ToLower(strings.ReplaceAll(c.Author, " ", ".")) + "@example.org"
+		env := []string{"GIT_AUTHOR_NAME=" + c.Author, "GIT_AUTHOR_EMAIL=" + email, "GIT_COMMITTER_NAME=" + c.Author, "GIT_COMMITTER_EMAIL=" + email, "GIT_AUTHOR_DATE=" + c.Date, "GIT_COMMITTER_DATE=" + c.Date}
+		if err := git(env, "commit", "-q", "--allow-empty", "-m", c.Msg); err != nil {
+			return err
+		}
+	}
+	// the checkout's case handling is a property of the clone (macOS / Windows), not of the history
+	git(nil, "config", "core.ignorecase", fmt.Sprint(r.IgnoreCase))
+	return nil
+}
+
 // canonVisual: nodes and links of the visual graph as sets (ids resolved to names).
 func canonVisual(raw []byte) (string, error) {
 	var v map[string][]map[string]interface{}
@@ -568,6 +670,15 @@ func (C08) Run(ctx *sim.RunCtx, data json.RawMessage) (*sim.Outcome, error) {
 		{"concept", []string{"concept"}, nil},
 		{"cloc", []string{"cloc", "tree", "--by-directory"}, []string{"cloc.csv"}},
 	}
+	repoDir := ""
+	if sc.GitRepo != nil {
+		repoDir = filepath.Join(ctx.Dir, "gitrepo")
+		if err := buildGitRepo(repoDir, sc.GitRepo); err != nil {
+			// the git binary is part of the environment, not of coca: without it this part is skipped
+			out.Probes["git-repo-not-built"]++
+			repoDir = ""
+		}
+	}
 	scheds := append([]sim.Schedule{sim.Canonical()}, sc.Schedules...)
 	var reference map[string]string
 	seen := map[string]bool{}
@@ -684,6 +795,37 @@ func (C08) Run(ctx *sim.RunCtx, data json.RawMessage) (*sim.Outcome, error) {
 				ls := strings.Split(r.Output, "\n")
 				sort.Strings(ls)
 				arte[c.name+".table"] = strings.Join(ls, "\n")
+			}
+		}
+		// `coca git` in a real repository (one process per report)
+		if repoDir != "" {
+			os.RemoveAll(filepath.Join(repoDir, "coca_reporter"))
+			for _, gc := range [][2]string{{"git-basic", "-b"}, {"git-team", "-t"}, {"git-top", "-o"}, {"git-summary", "-m"}} {
+				resg, err := ctx.Run(&sim.Proc{Schedule: s, Cwd: repoDir, Ops: []sim.Op{{Op: "cli", Args: map[string]interface{}{"args": []string{"git", gc[1]}, "read": []string{"coca_reporter/commits.json"}}}}})
+				if err != nil {
+					return nil, err
+				}
+				nonCanon += resg.NonCanon
+				if !resg.Completed(0) || !resg.Records[0].OK {
+					arte[gc[0]+".outcome"] = "failed: " + resg.Ended
+					continue
+				}
+				var r struct {
+					Output string            `json:"output"`
+					Files  map[string]string `json:"files"`
+				}
+				json.Unmarshal(resg.Records[0].Result, &r)
+				switch gc[0] {
+				case "git-basic":
+					arte[gc[0]+".table"] = r.Output
+					arte["git-cli.commits.json"] = canonCommitsJSON(r.Files["coca_reporter/commits.json"])
+				case "git-team", "git-top":
+					arte[gc[0]+".table"] = canonTableKeyed(r.Output, 1)
+				default:
+					secs := strings.Split(r.Output, "=====================\n")
+					sort.Strings(secs)
+					arte[gc[0]+".text"] = strings.Join(secs, "=====================\n")
+				}
 			}
 		}
 		// library-style analysis: identifier pass, then the full pass with the project-wide identifier set
